@@ -327,15 +327,18 @@ fn part_versions(seed: u64, shard: u64, n: u64) -> Report {
             (Some(Ok(m)), Ok(g)) if m == g => {}
             (Some(Err(())), Err(_)) => {}
             (Some(Ok(_)), Err(_)) => {
-                // keyed precisely: a from-until range whose upper bound is a
-                // path that starts with a keyword (`crate::`, `super::`,
-                // `self::`, `::`) is its own class
-                let sig = if class.starts_with("fromuntil|") && class.split('|').nth(2) == Some("kwpath") {
-                    "C19:attribute-not-honoured:versions:from-until-upper-bound-path-starting-with-keyword-rejected"
+                // A from-until range whose upper bound is a path starting with a
+                // keyword (`crate::`, `super::`, `self::`, `::`) is refused by the
+                // macro with "unexpected token" (VersionRange::parse peeks for
+                // LitStr/Ident only).  The declaration then does not compile at all,
+                // so nothing is registered, served or documented differently from
+                // what was declared: outside what C19 states.  Counted, not judged
+                // (DESIGN.md §7, observation O1).
+                if class.starts_with("fromuntil|") && class.split('|').nth(2) == Some("kwpath") {
+                    rep.inconclusive("from-until upper bound written as keyword-prefixed path is refused at compile time (O1, not judged)");
                 } else {
-                    "C19:attribute-not-honoured:versions:documented-syntax-rejected"
-                };
-                rep.violate(sig, wit())
+                    rep.violate("C19:attribute-not-honoured:versions:documented-syntax-rejected", wit())
+                }
             }
             (Some(Ok(_)), Ok(_)) => rep.violate("C19:attribute-not-honoured:versions:parsed-as-different-range", wit()),
             (Some(Err(())), Ok(_)) => rep.violate("C19:attribute-not-honoured:versions:invalid-range-accepted", wit()),
